@@ -1,5 +1,5 @@
 (* runner commands for the session machines (C06, C07, C13, C14) and the IV construction *)
-From Isomdl Require Import Lib.Bytes Lib.Cbor Model.Iv Model.Session Spec.IsoIv.
+From Isomdl Require Import Lib.Bytes Lib.Cbor Model.Iv Model.Session Spec.IsoIv Spec.DeviceDiagram.
 Open Scope N_scope.
 Local Open Scope string_scope.
 
@@ -165,6 +165,90 @@ Fixpoint nodup_b (l : list bytes) : bool :=
   | x :: r => negb (existsb (bytes_eqb x) r) && nodup_b r
   end.
 
+(* ---------- executable specification of C13: observations against the reference diagram ---------- *)
+
+Definition delivered_of (w : wire) (o : cbor) : option delivered :=
+  match o with
+  | CArray [CUInt 1; CUInt 0] => Some DlNothing
+  | CArray [CUInt 1; CUInt 1] => Some DlNothing
+  | CArray [CUInt 1; CUInt 2] =>
+    match w with
+    | WData (Enc _ _ PNotCbor) => Some DlNotCbor
+    | WData (Enc _ _ (PRequest _)) => None
+    | WData (Enc _ _ _) => Some DlNotRequest
+    | _ => None
+    end
+  | CArray [CUInt 1; CUInt 3; CUInt id] => Some (DlRequest id)
+  | _ => None
+  end.
+
+Definition rstate_code (s : rstate) : cbor :=
+  match s with
+  | RAwaiting => CArray [CUInt 0]
+  | RSigning u sd _ _ => CArray [CUInt 1; CUInt (N.of_nat (length u)); CUInt (N.of_nat (length sd))]
+  | RReady _ => CArray [CUInt 2]
+  end.
+
+Definition obs_state (o : cbor) : option cbor :=
+  match o with CArray [_; _; CArray [_; _; st; _; _]] => Some st | _ => None end.
+Definition obs_out (o : cbor) : option cbor :=
+  match o with CArray [x; _; _] => Some x | _ => None end.
+
+Definition response_of_wire_cbor (c : cbor) : option cbor :=
+  match c with
+  | CArray [CUInt 2; CArray [CUInt 1; _; _; CArray (CUInt 3 :: r)]] => Some (CArray r)
+  | _ => None
+  end.
+
+(* returns None when every observation agrees with the reference machine, else the reason *)
+Fixpoint c13_check (ops : list op) (obs : list cbor) (st : rstate) : option String.string :=
+  match ops, obs with
+  | [], [] => None
+  | o :: ops', ob :: obs' =>
+    match obs_out ob, obs_state ob with
+    | Some out, Some stc =>
+      let continue (st' : rstate) :=
+          if cbor_eqb stc (rstate_code st') then c13_check ops' obs' st'
+          else Some "device state differs from the documented diagram" in
+      match o with
+      | OHandleRequest w =>
+        match delivered_of w out with
+        | None => Some "request outcome does not fit the delivered message"
+        | Some d => continue (fst (rstep st (RHandle d)))
+        end
+      | OPrepare docs errs => continue (fst (rstep st (RPrepare docs errs)))
+      | ONextPayload =>
+        let '(st', ro) := rstep st RNextPayload in
+        let expected := match ro with
+                        | ROPayload None => CArray [CUInt 3; CNull]
+                        | ROPayload (Some (id, p)) => CArray [CUInt 3; CArray [CUInt id; CBytes p]]
+                        | _ => CNull end in
+        if cbor_eqb out expected then continue st' else Some "signature payload offered (or withheld) against the diagram"
+      | OSubmit sg => continue (fst (rstep st (RSubmit sg)))
+      | OReady =>
+        let '(st', ro) := rstep st RReadyQ in
+        let expected := match ro with ROBool b => CArray [CUInt 4; CBool b] | _ => CNull end in
+        if cbor_eqb out expected then continue st' else Some "response_ready differs from the diagram"
+      | ORetrieve =>
+        let '(st', ro) := rstep st RRetrieve in
+        match ro, out with
+        | RORetrieved None, CArray [CUInt 5; CNull] => continue st'
+        | RORetrieved (Some r), CArray [CUInt 5; w] =>
+          match response_of_wire_cbor w with
+          | Some rc => if cbor_eqb rc (CArray (cbor_of_response r)) then continue st'
+                       else Some "retrieved response differs from the prepared one"
+          | None => Some "retrieved message is not an encrypted response"
+          end
+        | RORetrieved None, _ => Some "a response was handed out although none was ready"
+        | _, _ => Some "no response handed out although one was ready"
+        end
+      | _ => continue st
+      end
+    | _, _ => Some "malformed observation"
+    end
+  | _, _ => Some "observation list length differs from operation list"
+  end.
+
 Definition api_session (cmd : bytes) (args : list cbor) : option cbor :=
   if bytes_eqb cmd (s "c07.iv") then
     match args with
@@ -191,6 +275,20 @@ Definition api_session (cmd : bytes) (args : list cbor) : option cbor :=
       match ops_of ops with
       | Some o => Some (CArray (run_trace o (fresh kr kd)))
       | None => None
+      end
+    | _ => None
+    end
+  else if bytes_eqb cmd (s "c13.spec") then
+    (* args: emissions (unused), model ops incl. the 2 establishment steps, observations (without them) *)
+    match args with
+    | [_; CArray ops; CArray obs] =>
+      match ops_of ops with
+      | Some (_ :: _ :: o) =>
+        Some (match c13_check o obs RAwaiting with
+              | None => ctext "ok"
+              | Some why => CText (s "fail:" ++ bytes_of_string why)
+              end)
+      | _ => None
       end
     | _ => None
     end
